@@ -4,6 +4,11 @@ Applies <seed dir>/patch.diff to /repo (git apply), runs the quick check of the 
 property (and of any further ids given), writes <seed dir>/result.json, and undoes the
 change straight afterwards (git apply -R) and regenerates the Gen tables."""
 import json, os, subprocess, sys, time
+ISO = "--iso" in sys.argv
+if ISO:
+    sys.argv.remove("--iso")
+VERIF = "/tmp/verif_iso" if ISO else "/verif"
+REPO = "/tmp/iso_repo" if ISO else "/repo"
 d = os.path.abspath(sys.argv[1])
 meta = json.load(open(os.path.join(d, "meta.json")))
 pids = sys.argv[2:] or [meta["property"]]
@@ -14,20 +19,20 @@ def sh(cmd, **kw):
     return subprocess.run(cmd, shell=True, stdout=subprocess.PIPE, stderr=subprocess.STDOUT, text=True, **kw)
 
 
-dirty = sh("git -C /repo status --porcelain --untracked-files=no").stdout.strip()
+dirty = sh("git -C %s status --porcelain --untracked-files=no" % REPO).stdout.strip()
 if dirty:
-    print("refusing: /repo has uncommitted changes:\n" + dirty)
+    print("refusing: %s has uncommitted changes:\n" % REPO + dirty)
     sys.exit(2)
-r = sh("git -C /repo apply --check %s" % patch)
+r = sh("git -C %s apply --check %s" % (REPO, patch))
 if r.returncode != 0:
     print("patch does not apply:", r.stdout)
     sys.exit(2)
-sh("git -C /repo apply %s" % patch)
+sh("git -C %s apply %s" % (REPO, patch))
 results = {}
 try:
     for pid in pids:
         t0 = time.time()
-        r = sh("cd /verif && timeout 3000 python3 tools/vp.py check %s" % pid)
+        r = sh("cd %s && timeout 3000 python3 tools/vp.py check %s" % (VERIF, pid))
         lines = [l for l in r.stdout.splitlines() if l.startswith(("OK", "VIOLATION", "KNOWN-FINDING"))]
         detected = any(l.startswith("VIOLATION") for l in lines)
         replay = None
@@ -38,10 +43,11 @@ try:
                         "no_failing_input_found": any("no-failing-input-found" in l for l in lines)}
         if replay and os.path.exists(replay):
             obj = json.load(open(replay))
+            results[pid]["replay_file"] = replay
             results[pid]["replay_summary"] = {"kind": obj.get("kind"), "first": (obj.get("violations") or obj.get("no_longer_checks") or [None])[0]}
         print(pid, "DETECTED" if detected else "MISSED", lines[-1][:200] if lines else r.stdout[-300:])
 finally:
-    sh("git -C /repo apply -R %s" % patch)
-    sh("cd /verif && python3 tools/sync_tables.py")
-json.dump({"checked_at_repo_head": sh("git -C /repo rev-parse --short HEAD").stdout.strip(), "results": results},
+    sh("git -C %s apply -R %s" % (REPO, patch))
+    sh("cd %s && python3 tools/sync_tables.py" % VERIF)
+json.dump({"checked_at_repo_head": sh("git -C %s rev-parse --short HEAD" % REPO).stdout.strip(), "results": results},
           open(os.path.join(d, "result.json"), "w"), indent=1)
